@@ -106,8 +106,20 @@ class BoomError(Exception):
 _BOOM = []
 
 
-def boom_class():
-    """A component whose stand-alone render always fails below its root (in a nested component's get_context_data)."""
+def boom_class(ok=False):
+    """A component whose stand-alone render always fails below its root (in a nested component's get_context_data);
+    with ok=True: a small component tree whose stand-alone render succeeds."""
+    if ok:
+        if len(_BOOM) < 2:
+            boom_class()
+            from django_components import Component
+            from django_components import registry as default_registry
+
+            leaf = type("GenOkLeaf", (Component,), {"template": "<b>ok</b>", "__module__": "sim.generated"})
+            default_registry.register("genokleaf", leaf)
+            _BOOM.append(type("GenOk", (Component,), {
+                "template": '{% component "genokleaf" / %}<i>{% component "genokleaf" / %}</i>', "__module__": "sim.generated"}))
+        return _BOOM[1]
     if not _BOOM:
         from django_components import Component
         from django_components import registry as default_registry
@@ -140,6 +152,12 @@ def build_classes(prog, registry=None, module="sim.generated"):
         def make(cd=cd, name=name):
             def get_context_data(self, **kwargs):
                 world.fault_point("gcd:" + name)
+                if cd.get("reseed"):
+                    import random
+
+                    random.seed(20260926)
+                if cd.get("nested_ok"):
+                    boom_class(ok=True).render()
                 if cd.get("tryfail"):
                     try:
                         boom_class().render(kwargs={"why": name})
